@@ -5,7 +5,9 @@ EXTENDS PT_Dialect, Json
 Elements == {"quoted-names", "placeholder", "boolean", "array", "interval", "interval-dialect-kw", "pagination", "groupby-alias", "string-value", "alias", "backslash-string", "json-value", "user-parameter"}
 Constructs == {"top", "subquery-from", "subquery-join", "subquery-in", "subquery-select", "cte", "setop-base", "setop-operand", "insert-select", "create-as",
                \* a select as an operand of a term of the outer statement: function argument, comparison operand, CASE result
-               "function-arg", "function-arg-orderby", "cmp-operand", "case-result"}
+               "function-arg", "function-arg-orderby", "cmp-operand", "case-result",
+               \* the set operation's own ORDER BY; the INSERT whose row source the statement is, with and without an alias on the target
+               "setop-base-ordered", "insert-select-aliased-target"}
 VARIABLES elem, c1, c2
 Init == elem \in Elements /\ c1 \in Constructs /\ c2 \in Constructs \cup {"none"}
 Next == UNCHANGED <<elem, c1, c2>>
